@@ -154,7 +154,7 @@ def expand_case(p, m, cid, extra=None):
 def build_generated(args):
     prop, cid, src, seed, queries = args
     rng = random.Random(seed)
-    cz = decio.Concretiser(rng, readable=True)
+    cz = decio.Concretiser(rng, readable=True, vocab=f"q/{cid // 64}" if isinstance(cid, int) and cid % 2 == 1 else None)
     text = decio.render_file(cz, src)
     p, err, _ = decio.parse_text(text)
     if p is None:
